@@ -1190,7 +1190,7 @@ func HandleCopy(deps ServerDeps, conn net.Conn, tag string, parts []string, stat
 	}
 
 	sequenceSet := parts[1]
-	destMailbox := strings.Trim(strings.Join(parts[2:], " "), "\"")
+	destMailbox := utils.ParseQuotedString(strings.Join(parts[2:], " "))
 
 	// Get user database
 	userDB, targetUserID, err := deps.GetSelectedDB(state)
@@ -1424,7 +1424,7 @@ func HandleAppendWithReader(deps ServerDeps, reader io.Reader, conn net.Conn, ta
 	}
 
 	// Parse folder name (could be quoted)
-	folder := strings.Trim(parts[2], "\"")
+	folder := utils.ParseQuotedString(parts[2])
 	folder = utils.NormalizeMailboxName(folder)
 
 	// Validate folder exists using the database with new schema
@@ -1578,7 +1578,7 @@ func HandleAppend(deps ServerDeps, conn net.Conn, tag string, parts []string, fu
 	}
 
 	// Parse folder name (could be quoted)
-	folder := strings.Trim(parts[2], "\"")
+	folder := utils.ParseQuotedString(parts[2])
 	folder = utils.NormalizeMailboxName(folder)
 
 	// Validate folder exists using the database with new schema
